@@ -25,6 +25,53 @@ func init() {
 			dumpAssert(p)
 		case "effects":
 			dumpEffects(p, os.Args[3:])
+		case "slots":
+			tt := p.tokenTable()
+			for _, f := range p.SortedFuncs() {
+				if recvTypeName(f) != "Parser" {
+					continue
+				}
+				sig := f.Type().(*types.Signature)
+				if sig.Results().Len() == 0 {
+					continue
+				}
+				rt := sig.Results().At(0).Type()
+				if pt, ok := rt.(*types.Pointer); ok {
+					rt = pt.Elem()
+				}
+				nt, ok := rt.(*types.Named)
+				if !ok || nt.Obj().Pkg() != p.Types {
+					continue
+				}
+				if _, ok := nt.Underlying().(*types.Struct); !ok {
+					continue
+				}
+				if len(os.Args) > 3 && os.Args[3] != nt.Obj().Name() {
+					continue
+				}
+				fmt.Printf("== %s -> %s\n  parse:", FuncName(f), nt.Obj().Name())
+				for _, e := range p.parseEvents(f, nt, tt) {
+					if e.kind == "KW" {
+						fmt.Printf(" %s", e.word)
+					} else {
+						fmt.Printf(" [%s:%s]", e.field, e.class)
+					}
+				}
+				fmt.Printf("\n  print:")
+				if str := p.Method(nt.Obj().Name(), "String"); str != nil {
+					for _, e := range p.printEvents(str) {
+						switch e.kind {
+						case "KW":
+							fmt.Printf(" %s", e.word)
+						case "READ":
+							fmt.Printf(" (%s?)", e.field)
+						default:
+							fmt.Printf(" [%s:%s]", e.field, e.class)
+						}
+					}
+				}
+				fmt.Println()
+			}
 		case "scantable":
 			rows, err := p.scanTable()
 			fmt.Println(err)
